@@ -132,6 +132,10 @@ class Rewriter:
     def stmt(self, s):
         rng = self.rng
         k = s[0]
+        if k == 'expr' and s[1][0] == 'bin' and s[1][1] == ',' and rng.random() < self.p:
+            from lib.csem import comma_parts
+            self.applied.append('comma -> statements')
+            return ('block', [('expr', x) for x in comma_parts(s[1])])
         if k == 'expr':
             e = s[1]
             if e[0] == 'inc' and e[1] in ('++x', 'x++') and rng.random() < self.p:
@@ -143,6 +147,15 @@ class Rewriter:
             return ('expr', self.expr(e))
         if k == 'block':
             return ('block', [self.stmt(x) for x in s[1]])
+        if k == 'for' and s[3] is not None and s[3][0] == 'bin' and s[3][1] == ',' and not binds_continue(s[4]) and rng.random() < self.p:
+            # for (i; c; u1, u2) body  ->  i; while (c) { body; u1; u2; }  (the comma is a sequence point)
+            from lib.csem import comma_parts
+            self.applied.append('comma update -> statements')
+            body = self.stmt(s[4])
+            inner = body[1] if body[0] == 'block' else [body]
+            init = [('expr', x) for x in comma_parts(s[1])] if s[1] is not None else []
+            return ('block', init + [('while', s[2] if s[2] is not None else ('num', 1),
+                                     ('block', list(inner) + [('expr', x) for x in comma_parts(s[3])]))])
         if k == 'if':
             c = self.expr(s[1])
             a = self.stmt(s[2])
@@ -296,6 +309,18 @@ def run(ctx):
             applied['p%d' % i] = rw.applied
             for a in rw.applied:
                 kinds[a] = kinds.get(a, 0) + 1
+        # the comma family of the fixed enumeration (tools/lib/gen_c.py, K): the comma spelled as statements
+        from lib.gen_c import directed_programs
+        for k_, p_ in directed_programs().items():
+            if not k_.startswith('K_'):
+                continue
+            rw = Rewriter(rng, 1.0)
+            q = rw.program(p_)
+            if rw.applied:
+                pairs['d' + k_] = (p_, q)
+                applied['d' + k_] = rw.applied
+                for a in rw.applied:
+                    kinds[a] = kinds.get(a, 0) + 1
         # programs that never mention X: every constant subscript of a condition goes through X in the copy
         for i in range(80 if quick else 2000):
             p = index_program(rng)
